@@ -532,8 +532,23 @@ def gen_conn_cases(rng, n):
 
 ENGINE_CALLS = {'Detector_to_stim', 'Observable_to_stim', 'CoordinateShift_to_stim'}
 
+def gen_facade_cases(rng, n):
+    """`operations`, `duration`, `get_last_entry` of DeclarativeCircuit (values)."""
+    from qce_circuit.language.declarative_circuit import DeclarativeCircuit
+    from qce_circuit.structure.circuit_operations import Wait, Rx180
+    cases = []
+    for _ in range(n):
+        c = DeclarativeCircuit()
+        for _i in range(rng.randint(0, 3)):
+            c.add(rng.choice([Rx180(rng.randint(0, 2)), Wait(rng.randint(0, 2))]))
+        cases.append(('Decl_get_last_entry', [c]))
+        cases.append(('Decl_operations', [c]))
+        cases.append(('Decl_duration', [c]))
+    return cases
+
+
 GENERATORS = {'kernels': gen_kernel_cases, 'ident': gen_ident_cases, 'timing': gen_timing_cases, 'export': gen_export_cases,
-              'acq': gen_acq_cases, 'draw': gen_draw_cases, 'conn': gen_conn_cases}
+              'acq': gen_acq_cases, 'draw': gen_draw_cases, 'conn': gen_conn_cases, 'facade': gen_facade_cases}
 
 
 def run_cases(cases):
@@ -721,6 +736,16 @@ def gen_effect_cases(rng, n):
         cases.append(('Composite_copy', [c5.circuit_structure, {}]))
         c6, _ = circ(rng.randint(1, 2))
         cases.append(('Composite_repeat', [c6.circuit_structure, rng.randint(1, 3)]))
+        # the facade: what DeclarativeCircuit does around the structure
+        c7, _ = circ(rng.randint(0, 3), rng.randint(1, 2))
+        cases.append(('Decl_add_operation', [c7, Rx180(rng.randint(0, 2))]))
+        c8, _ = circ(rng.randint(0, 3))
+        s8, _ = circ(rng.randint(0, 2), rng.randint(1, 2))
+        cases.append(('Decl_add_sub_circuit', [c8, s8.circuit_structure]))
+        c9, _ = circ(rng.randint(0, 3), rng.randint(1, 3))
+        cases.append(('Decl_apply_modifiers', [c9]))
+        c10, _ = circ(rng.randint(0, 3))
+        cases.append(('Decl_flatten', [c10]))
     return cases
 
 
